@@ -31,6 +31,9 @@ def main():
         i = args.index("--name"); name = args[i + 1]; del args[i:i + 2]
     if "--skip-worktree" in args:
         args.remove("--skip-worktree"); skip_wt = True
+    rebased = None
+    if "--rebased" in args:
+        i = args.index("--rebased"); rebased = args[i + 1]; del args[i:i + 2]
     seed_dir, props = args[0].rstrip("/"), args[1].split(",")
     m = re.search(r"/(C\d+)-out/(m\d+)$", seed_dir)
     wt_id, mi = (m.group(1), m.group(2)) if m else (props[0], "m1")
@@ -42,6 +45,11 @@ def main():
         meta_in = json.load(open(os.path.join(seed_dir, "meta.json")))
     except Exception as ex:
         meta_in = {"error": f"agent meta.json unreadable: {ex}"}
+    prev = {}
+    try:
+        prev = json.load(open(f"/verif/seeded/{name}/meta.json"))
+    except Exception:
+        pass
     out = {"name": name, "property": props[0], "also_checked": props[1:], "agent_meta": meta_in, "confirmed": {}, "checks": {}, "ran": []}
     wt = f"/tmp/wt/{wt_id}"
 
@@ -82,7 +90,9 @@ def main():
     fcntl.flock(lock, fcntl.LOCK_EX)
     try:
         sh("rsync -a --delete --exclude target --exclude .git /repo/ /tmp/seedrun/repo/")
-        rc, o = sh(f"patch -p1 --no-backup-if-mismatch < {patch}", cwd="/tmp/seedrun/repo")
+        rc, o = sh(f"patch -p1 --no-backup-if-mismatch < {rebased or patch}", cwd="/tmp/seedrun/repo")
+        if rebased:
+            out["checks"]["rebased_patch"] = "the agent's patch was written against an earlier /repo HEAD; the same change was re-applied by hand to the current HEAD (patch-rebased.diff) for running the checks"
         out["checks"]["patch_applies_to_current_repo_head"] = rc == 0
         if rc == 0:
             sh("rsync -a --delete --exclude 'target*' /verif/harness/ /tmp/seedrun/harness/")
@@ -111,12 +121,17 @@ def main():
     finally:
         fcntl.flock(lock, fcntl.LOCK_UN)
 
+    if skip_wt and prev.get("confirmed"):
+        out["confirmed"] = prev["confirmed"]
+        out["ran"] = [r for r in prev.get("ran", []) if "scratch worktree" in r or "zz_demo" in r] + out["ran"]
     caught = [p for p in props if any(v.get("exit") == 1 for v in out["checks"].get(p, {}).values() if isinstance(v, dict))]
     out["caught_by"] = caught
     dst = f"/verif/seeded/{name}"
     os.makedirs(dst, exist_ok=True)
     shutil.copy(patch, os.path.join(dst, "patch.diff"))
     shutil.copy(demo, os.path.join(dst, "demo.rs"))
+    if rebased and os.path.abspath(rebased) != os.path.abspath(os.path.join(dst, "patch-rebased.diff")):
+        shutil.copy(rebased, os.path.join(dst, "patch-rebased.diff"))
     out["needs"] = meta_in.get("needs", "")
     out["summary"] = meta_in.get("summary", "")
     json.dump(out, open(os.path.join(dst, "meta.json"), "w"), indent=1)
